@@ -87,8 +87,15 @@ fn b<const N: usize>(len: usize, salt: usize) -> Bytes<N> {
     Bytes::from_slice(fill(len, salt)).expect("within declared capacity")
 }
 
+thread_local! {
+    /// lengths of the two public-key coordinates handed to the constructor (32 / 32 unless a
+    /// coordinate-length case is being evaluated)
+    static COORD: std::cell::Cell<(usize, usize)> = const { std::cell::Cell::new((32, 32)) };
+}
+
 fn xy() -> cosey::EcdhEsHkdf256PublicKey {
-    cosey::EcdhEsHkdf256PublicKey { x: b(32, 21), y: b(32, 22) }
+    let (xl, yl) = COORD.with(|c| c.get());
+    cosey::EcdhEsHkdf256PublicKey { x: b(xl, 21), y: b(yl, 22) }
 }
 
 pub fn build(r: &Resp) -> ctap1::Response {
@@ -110,8 +117,9 @@ pub fn layout(r: &Resp) -> Vec<u8> {
         Resp::Register(h, kh, cert, sig) => {
             out.push(*h);
             out.push(0x04);
-            out.extend_from_slice(fill(32, 21));
-            out.extend_from_slice(fill(32, 22));
+            let (xl, yl) = COORD.with(|c| c.get());
+            out.extend_from_slice(fill(xl, 21));
+            out.extend_from_slice(fill(yl, 22));
             out.push(*kh as u8);
             out.extend_from_slice(fill(*kh, 23));
             out.extend_from_slice(fill(*cert, 24));
@@ -136,6 +144,26 @@ fn ser<const S: usize>(r: &ctap1::Response, prefix: &[u8]) -> Result<(bool, Vec<
         let mut buf: iso7816::Data<S> = iso7816::Data::new();
         buf.extend_from_slice(prefix).expect("prefix fits");
         let ok = r.serialize(&mut buf).is_ok();
+        // a copy made by `clone` and one made by `clone_from` over a different value of the same
+        // kind must serialise exactly like the original
+        let mut twin = match r {
+            ctap1::Response::Register(_) => ctap1::Response::Register(register::Response::new(0, &cosey::EcdhEsHkdf256PublicKey { x: Bytes::new(), y: Bytes::new() }, Bytes::new(), Bytes::new(), Bytes::new())),
+            ctap1::Response::Authenticate(_) => ctap1::Response::Authenticate(authenticate::Response { user_presence: 0xff, count: 0, signature: Bytes::new() }),
+            ctap1::Response::Version(_) => ctap1::Response::Version([0; 6]),
+        };
+        match (&mut twin, r) {
+            (ctap1::Response::Register(a), ctap1::Response::Register(b)) => a.clone_from(b),
+            (ctap1::Response::Authenticate(a), ctap1::Response::Authenticate(b)) => a.clone_from(b),
+            (a, b) => a.clone_from(b),
+        }
+        for copy in [twin, r.clone()] {
+            let mut buf2: iso7816::Data<S> = iso7816::Data::new();
+            buf2.extend_from_slice(prefix).expect("prefix fits");
+            let ok2 = copy.serialize(&mut buf2).is_ok();
+            if ok2 != ok || buf2[..] != buf[..] {
+                panic!("a copy of the response serialises differently from the original");
+            }
+        }
         (ok, buf.to_vec())
     })
 }
@@ -367,6 +395,34 @@ pub fn run(ctx: &'static Ctx) {
             }
         });
     }
+    // coordinates as the constructor receives them: every pair of lengths, every content class
+    {
+        let lens = [0usize, 1, 16, 31, 32];
+        let shapes = [(0usize, 0usize, 0usize), (1, 1, 1), (64, 300, 70), (255, 1024, 72)];
+        let total = (lens.len() * lens.len() * shapes.len()) as u64 * CONTENTS as u64;
+        sweep(ctx, "public-key coordinate lengths", total, "x and y of 0, 1, 16, 31, 32 bytes each x 4 part-length shapes x every content class: 0x04 || x || y verbatim", move |idx, l| {
+            let mut r = idx as usize;
+            let content = (r % CONTENTS as usize) as u8;
+            r /= CONTENTS as usize;
+            let (kh, cert, sig) = shapes[r % shapes.len()];
+            r /= shapes.len();
+            let (xl, yl) = (lens[r % lens.len()], lens[r / lens.len()]);
+            COORD.with(|c| c.set((xl, yl)));
+            let resp = Resp::Register(5, kh, cert, sig);
+            l.nontrivial += 1;
+            l.bump("coordinate lengths");
+            let v = check_content(&resp, 2048, 0, content);
+            COORD.with(|c| c.set((32, 32)));
+            if !v.ok {
+                l.fail(ctx, idx, v, || {
+                    let mut j = rjson(&resp, 2048, 0);
+                    j["content"] = json!(content);
+                    j["coordinates"] = json!([xl, yl]);
+                    j
+                });
+            }
+        });
+    }
     // content classes of the variable parts (coordinates, key handle, certificate, signature)
     {
         let mut cases: Vec<(Resp, u8)> = Vec::new();
@@ -448,7 +504,12 @@ pub fn replay(case: &Value) -> Verdict {
                 1 => Resp::Authenticate(f[1] as u8, f[2] as u32, f[3] as usize),
                 _ => Resp::Version(f[1] as u8),
             };
-            check_content(&r, case["capacity"].as_u64().unwrap() as usize, case["prefix"].as_u64().unwrap() as usize, case["content"].as_u64().unwrap_or(0) as u8)
+            if let Some(c) = case["coordinates"].as_array() {
+                COORD.with(|x| x.set((c[0].as_u64().unwrap() as usize, c[1].as_u64().unwrap() as usize)));
+            }
+            let v = check_content(&r, case["capacity"].as_u64().unwrap() as usize, case["prefix"].as_u64().unwrap() as usize, case["content"].as_u64().unwrap_or(0) as u8);
+            COORD.with(|x| x.set((32, 32)));
+            v
         }
     }
 }
